@@ -139,9 +139,23 @@ func genCases(seed int64, n, length int, scale string, multi bool, features stri
 				c.Ops = append(c.Ops, rv)
 				c.Ledgers = []drive.CaseLedger{{Name: "l1", Bucket: "b1"}, {Name: "l2", Bucket: bucket, CreateAt: len(src)}}
 			case 2: // a ledger that accepted a write refuses the import; importing twice is refused too
-				c.Ops = append([]drive.Op{post("v2", 0)}, src...)
-				c.Ops = append(c.Ops, imp)
-				c.Ledgers = []drive.CaseLedger{{Name: "l1", Bucket: "b1"}, {Name: "l2", Bucket: bucket}}
+				first := post("v2", 0)
+				feat := map[string]string(nil)
+				tail := imp
+				switch (i / 4) % 2 {
+				case 1:
+					// the accepted write is a metadata write (no transaction id involved), and the client then
+					// sends only the tail of the journal (ids above the log the write took); unhashed logs, so
+					// that nothing but the ledger's state stands in the way
+					first = drive.Op{K: "acmeta", L: "l2", Now: 1, Addr: "alice", Meta: map[string]string{"k": "v"}}
+					first.Norm()
+					first.IKIn = 901
+					feat = map[string]string{"HASH_LOGS": "DISABLED"}
+					tail.ID = 2
+				}
+				c.Ops = append([]drive.Op{first}, src...)
+				c.Ops = append(c.Ops, tail)
+				c.Ledgers = []drive.CaseLedger{{Name: "l1", Bucket: "b1", Features: feat}, {Name: "l2", Bucket: bucket, Features: feat}}
 			default:
 				c.Ops = append(append(src, imp), imp, post("bulk-atomic", 1), imp)
 				c.Ledgers = []drive.CaseLedger{{Name: "l1", Bucket: "b1"}, {Name: "l2", Bucket: bucket, CreateAt: len(src)}}
